@@ -26,6 +26,7 @@ func main() {
 	fs.Parse(os.Args[2:])
 	slowOK = *slow
 	focus = *foc
+	twinOn = stream == "hist" && focus == "multi"
 	w := bufio.NewWriterSize(os.Stdout, 1<<20)
 	if *out != "-" {
 		f, err := os.Create(*out)
